@@ -513,7 +513,15 @@ pub fn run(cfg: &Cfg, rep: &mut Report) {
     // exhaustive lengths
     // Miri: 0..=17 covers every residue of the length mod 8 with 0, 1 and 2 full chunks (one
     // evaluation costs ~50-90 ms there); memcheck/ASan: native sizes.
-    let mut lengths: Vec<usize> = if cfg.miri() { (0..=17).collect() } else { (0..=40).collect() };
+    let mut lengths: Vec<usize> = if cfg.miri() {
+        if cfg.thorough() {
+            (0..=33).collect()
+        } else {
+            (0..=17).collect()
+        }
+    } else {
+        (0..=40).collect()
+    };
     if cfg.lite && !cfg.miri() {
         lengths.extend([64, 65, 127, 200, 300]);
     }
